@@ -525,6 +525,14 @@ func (env *Env) unify(a, b Value) (Value, Value) {
 	case ub:
 		return a, env.coerce(b, a.T)
 	}
+	// mixed integer / float comparisons are made over the reals (a local whose type was changed
+	// from int to float64 must not make the contract unreadable)
+	if isInteger(a.T) && isFloat(b.T) {
+		return Value{T: b.T, S: []string{"0", "(to_real " + a.S[0] + ")"}}, b
+	}
+	if isFloat(a.T) && isInteger(b.T) {
+		return a, Value{T: a.T, S: []string{"0", "(to_real " + b.S[0] + ")"}}
+	}
 	if isInteger(a.T) && b.T == realType {
 		return env.coerce(a, realType), b
 	}
